@@ -65,7 +65,7 @@ enum Act {
     /// the token's set_admin(new_admin): only the current owner may hand the ownership over
     SetAdmin { to: usize, by: Who },
     /// version: 0 = same as current, 1 = the version the new code reports, 2.. = wrong ones
-    /// (9.9.9, 0.1.5, 0.10.0, 0.2);
+    /// (9.9.9, 0.1.5, 0.10.0, 0.2, the empty string);
     /// data: 0 = well-typed, 1 = ill-typed, 2 = empty argument list
     Upgrader { version: u8, cover: Cover, data: u8, real_code: bool },
     Advance(u32),
@@ -193,7 +193,7 @@ impl Scenario for C15 {
                 v.push(Act::SetAdmin { to, by });
             }
         }
-        for version in 0..6u8 {
+        for version in 0..7u8 {
             for cover in [Cover::Both, Cover::UpgradeOnly, Cover::MigrateOnly, Cover::Nobody, Cover::WrongPrincipal] {
                 if version >= 3 && cover != Cover::Both {
                     continue;
@@ -316,7 +316,8 @@ impl Scenario for C15 {
                     2 => "9.9.9".to_string(),
                     3 => "0.1.5".to_string(),
                     4 => "0.10.0".to_string(),
-                    _ => "0.2".to_string(),
+                    5 => "0.2".to_string(),
+                    _ => String::new(),
                 };
                 let hash = if *real_code { ctx.dummy_hash } else { sha256(b"") };
                 // migration data: the real dummy.wasm expects a string, native contracts expect ()
